@@ -138,6 +138,7 @@ static int count_fds(void)
 }
 
 enum { K_COMP, K_IDT, K_FRAGT, K_FILE, K_META, K_DIR, K_DATA, K_XRD, K_XWR, K_WFILE,
+       K_NOCOPY,	/* a library object whose copy hook is NULL (sqfs_object_init(obj, destroy, NULL)): an input stream on a file */
        K_RBT, K_ARR, K_STRT };	/* the last three: the generic containers as units (objects o and c only, no sqfs_object_t) */
 #define IS_UNIT(k) ((k) >= K_RBT)
 #define NOBJ 4		/* o, c, t1, t2 */
@@ -230,6 +231,7 @@ static void *make_object(void)
 		unlink(p);
 		return f;
 	}
+	case K_NOCOPY: { sqfs_istream_t *st = NULL; if (sqfs_istream_open_file(&st, E.path, 0)) return NULL; return st; }
 	case K_META: return sqfs_meta_reader_create(E.file, E.cmp, E.super.inode_table_start, E.super.directory_table_start);
 	case K_DIR: return sqfs_dir_reader_create(&E.super, E.cmp, E.file, E.dirflags);
 	case K_DATA: {
@@ -298,6 +300,7 @@ static int setup(int argc, char **argv)	/* argv[0] = kind */
 	else if (!strcmp(k, "xwr")) { E.kind = K_XWR; if (argc >= 2) snprintf(E.tmpdir, sizeof(E.tmpdir), "%s", argv[1]); }
 	else if (!strcmp(k, "file") && argc >= 2) { E.kind = K_FILE; snprintf(E.path, sizeof(E.path), "%s", argv[1]); }
 	else if (!strcmp(k, "wfile") && argc >= 2) { E.kind = K_WFILE; snprintf(E.tmpdir, sizeof(E.tmpdir), "%s", argv[1]); }
+	else if (!strcmp(k, "nocopy") && argc >= 2) { E.kind = K_NOCOPY; snprintf(E.path, sizeof(E.path), "%s", argv[1]); }
 	else if (!strcmp(k, "meta") && argc >= 2) { E.kind = K_META; if (open_image(argv[1])) return -1; }
 	else if (!strcmp(k, "dir") && argc >= 3) { E.kind = K_DIR; E.dirflags = strtoul(argv[2], 0, 0); if (open_image(argv[1])) return -1; }
 	else if (!strcmp(k, "data") && argc >= 2) { E.kind = K_DATA; if (open_image(argv[1])) return -1; }
@@ -1068,6 +1071,13 @@ static void do_op(int t, int argc, char **argv)
 	case K_IDT: op_idt(ob, argc, argv); break;
 	case K_FRAGT: op_fragt(ob, argc, argv); break;
 	case K_FILE: case K_WFILE: op_file(ob, argc, argv); break;
+	case K_NOCOPY: {	/* `peek n`: the first bytes of the stream's buffer, nothing consumed */
+		sqfs_istream_t *st = ob; const sqfs_u8 *p = NULL; size_t sz = 0; char hb[128]; int r;
+		if (argc < 2 || strcmp(argv[0], "peek")) { out("bad-op"); break; }
+		r = st->get_buffered_data(st, &p, &sz, strtoul(argv[1], 0, 0));
+		if (r) { out("peek %d", r); break; }
+		if (sz > strtoul(argv[1], 0, 0)) sz = strtoul(argv[1], 0, 0);
+		put_bytes(hb, sizeof(hb), p, sz); out("peek 0 %s", hb); break; }
 	case K_META: op_meta(ob, argc, argv); break;
 	case K_DIR: op_dir(ob, argc, argv); break;
 	case K_DATA: op_data(ob, argc, argv); break;
